@@ -40,6 +40,12 @@ impl<'a> KmerGenerator<'a> {
         }
     }
 
+    /// (pos, len, fval, rval) - read-only view of the iterator state
+    #[cfg(feature = "verif_hooks")]
+    pub fn verif_state(&self) -> (usize, usize, u64, u64) {
+        (self.pos, self.len, self.fval, self.rval)
+    }
+
     pub fn rev_comp(kmer: Kmer, ksize: usize) -> Kmer {
         let mut rkmer = 0;
         let mut kmer = kmer;
